@@ -99,16 +99,27 @@ def resolve_flag(b, local, reach, env, call_name, depth=0):
         k = call_name(node)
         return env.get(k) if k else None
     rv = node['rv']
+    if rv['k'] == 'un' and rv.get('op') == 'Not':
+        v = _eval_op(b, rv['a'], reach, env, call_name, depth + 1)
+        return None if v is None else (not v)
     if rv['k'] == 'use':
-        op = rv['op']
-        if 'c' in op:
-            v = op['c'].get('v')
-            return v in (True, 'true', 1)
-        from .facts import op_place, pl_local, pl_proj
-        p = op_place(op)
-        if p is not None and not pl_proj(p):
-            return resolve_flag(b, pl_local(p), reach, env, call_name, depth + 1)
+        return _eval_op(b, rv['op'], reach, env, call_name, depth + 1)
     return None
+
+
+def _eval_op(b, op, reach, env, call_name, depth):
+    if 'c' in op:
+        v = op['c'].get('v')
+        return v in (True, 'true', 1)
+    from .facts import op_place, pl_local, pl_proj
+    p = op_place(op)
+    if p is None:
+        return None
+    if not pl_proj(p):
+        return resolve_flag(b, pl_local(p), reach, env, call_name, depth + 1)
+    # a projected place (field read): let the rule name it through call_name({'place': p})
+    k = call_name({'place': p})
+    return env.get(k) if k else None
 
 
 def table_walk(b, classify, env, call_name=lambda t: None, rounds=4):
@@ -141,3 +152,49 @@ def table_walk(b, classify, env, call_name=lambda t: None, rounds=4):
             break
         flags = new
     return r, flags
+
+
+def escapes_under(b, classify, env, via_blocks, escape_edges=(), call_name=lambda t: None):
+    """return blocks that can be reached from the entry, under the assignment `env` of the named conditions (all other conditions free), without
+    passing a block of via_blocks and without taking one of escape_edges ((src, dst, label)). Empty list = under env every way through the function
+    passes via_blocks or leaves through an escape edge."""
+    r, flags = table_walk(b, classify, env, call_name)
+
+    def classify2(d, term):
+        if d['k'] == 'multi' and d.get('l') in flags:
+            return ('bool', ('flag', d['l']))
+        return classify(d, term)
+    env2 = dict(env)
+    for l, v in flags.items():
+        env2[('flag', l)] = v
+    esc = set(escape_edges)
+    via = set(via_blocks)
+    seen = set()
+    stack = [0]
+    while stack:
+        x = stack.pop()
+        if x in seen or x in via:
+            continue
+        seen.add(x)
+        t = b.blocks[x]['t']
+        allowed = None
+        if t['k'] == 'switch':
+            d = cfg.describe_operand(b, t['discr'])
+            neg = False
+            while d['k'] == 'un' and d['op'] == 'Not':
+                neg = not neg
+                d = cfg.describe_operand(b, d['a'])
+            c = classify2(d, t)
+            if c is not None and c[1] in env2:
+                if c[0] == 'bool':
+                    v = env2[c[1]]
+                    allowed = bool_labels(t, (not v) if neg else v)
+                elif c[0] == 'variant':
+                    allowed = variant_labels(t, d.get('variants'), env2[c[1]])
+        for (nx, lab) in b.succ[x]:
+            if allowed is not None and lab not in allowed:
+                continue
+            if (x, nx, lab) in esc:
+                continue
+            stack.append(nx)
+    return [x for x in b.return_blocks() if x in seen]
